@@ -556,3 +556,90 @@ Proof.
   intros f Hf. destruct H' as [Hup _]. unfold receivers_uptodate in Hup. rewrite Forall_forall in Hup.
   pose proof (Hup f Hf) as Hu. split; [exact Hu|]. apply uptodate_union. exact Hu.
 Qed.
+
+(* ================= selection by an arbitrary name predicate; patterns with character classes ================= *)
+Lemma del_by_spec : forall p m, wf m ->
+  del_ecu_by p m = mkMatrix (filter (fun e => negb (p (ename e))) (ecus m))
+                            (map (map_refs (filter (fun x => negb (hit_by p m x)))) (frames m))
+                            (free m).
+Proof.
+  intros p [es fs fr] Hwf. unfold del_ecu_by. cbn [ecus frames free].
+  apply wf_frames in Hwf. cbn in Hwf.
+  exact (del_fold p es [] fs fr Hwf (fun e (H : In e []) => match H with end)).
+Qed.
+
+Lemma del_by_wf : forall p m, wf m -> wf (del_ecu_by p m).
+Proof.
+  intros p m H. unfold del_ecu_by. apply fold_left_preserves; [|exact H]. intros a x Ha. apply del_one_wf. exact Ha.
+Qed.
+
+Lemma del_by_hits_exactly_matches : forall (p : name -> bool) m,
+  wf m ->
+  let m' := del_ecu_by p m in
+  ecus m' = filter (fun e => negb (p (ename e))) (ecus m) /\
+  frames m' = map (map_refs (filter (fun x => negb (hit_by p m x)))) (frames m) /\
+  free m' = free m /\
+  refs3 m' = filter (fun x => negb (hit_by p m x)) (refs3 m) /\
+  wf m'.
+Proof.
+  intros p m Hwf m'. unfold m'. split; [|split; [|split; [|split]]].
+  - rewrite del_by_spec by exact Hwf. reflexivity.
+  - rewrite del_by_spec by exact Hwf. reflexivity.
+  - rewrite del_by_spec by exact Hwf. reflexivity.
+  - rewrite del_by_spec by exact Hwf. unfold refs3. cbn. apply refs_map_filter.
+  - apply del_by_wf. exact Hwf.
+Qed.
+
+Lemma sig_recv_by_wf : forall g pf ps m, (forall l, NoDup l -> NoDup (g l)) -> wf m -> wf (sig_recv_by g pf ps m).
+Proof.
+  intros g pf ps m Hg H. apply wf_frames. cbn. apply wf_frames in H. rewrite Forall_map.
+  eapply Forall_impl; [|exact H]. intros f [Hup [Htx Hsg]]. destruct (pf (fname f)); [|split; [exact Hup | split; assumption]].
+  split; [apply update_receiver_uptodate|]. unfold update_receiver, frame_refs_nodup. cbn. split; [exact Htx|].
+  rewrite Forall_map. eapply Forall_impl; [|exact Hsg]. intros s Hs. cbn.
+  destruct (ps (sname s)); [cbn; apply Hg; exact Hs | exact Hs].
+Qed.
+
+Lemma step_cls_wf : forall m o, wf m -> wf (step_cls m o).
+Proof.
+  intros m o H. destruct o; cbn [step_cls]; try (apply step_wf; exact H).
+  - apply del_by_wf. exact H.
+  - apply sig_recv_by_wf; [intros l Hl; apply add_name_NoDup; exact Hl | exact H].
+  - apply sig_recv_by_wf; [intros l Hl; apply del_name_NoDup; exact Hl | exact H].
+Qed.
+
+Lemma run_ops_cls_wf : forall ops m, wf m -> wf (run_ops_cls m ops).
+Proof. intros ops m H. unfold run_ops_cls. apply fold_left_preserves; [|exact H]. intros a x Ha. apply step_cls_wf. exact Ha. Qed.
+
+Lemma sig_recv_by_ext : forall g pf pf' ps ps' m, (forall x, pf x = pf' x) -> (forall x, ps x = ps' x) ->
+  sig_recv_by g pf ps m = sig_recv_by g pf' ps' m.
+Proof.
+  intros g pf pf' ps ps' m Hf Hs. unfold sig_recv_by. f_equal. apply map_ext. intro f. rewrite Hf.
+  destruct (pf' (fname f)); [|reflexivity]. f_equal. f_equal. apply map_ext. intro s. rewrite Hs. reflexivity.
+Qed.
+
+Lemma step_cls_agrees : forall m o, op_no_bracket o = true -> step_cls m o = step m o.
+Proof.
+  intros m o H. destruct o; cbn [step_cls step op_no_bracket] in *; try reflexivity.
+  - unfold del_ecu_by, del_ecu_glob, glob_ecus. f_equal. apply filter_ext. intro e. apply glob_cls_agrees. exact H.
+  - apply andb_true_iff in H. destruct H as [H1 H2]. unfold add_signal_receiver.
+    change (sig_recv_op (add_name n) gf gs m) with (sig_recv_by (add_name n) (glob_match gf) (glob_match gs) m).
+    apply sig_recv_by_ext; intro x; apply glob_cls_agrees; assumption.
+  - apply andb_true_iff in H. destruct H as [H1 H2]. unfold del_signal_receiver.
+    change (sig_recv_op (del_name n) gf gs m) with (sig_recv_by (del_name n) (glob_match gf) (glob_match gs) m).
+    apply sig_recv_by_ext; intro x; apply glob_cls_agrees; assumption.
+Qed.
+
+Lemma ops_cls_preserve_receivers_uptodate : forall ops1 ops2 m,
+  wf m ->
+  let m' := run_ops_cls m ops1 in
+  wf m' /\ receivers_uptodate (run_ops_cls m (ops1 ++ ops2)) /\
+  forall f, In f (frames m') ->
+    receivers f = nub (flat_map sreceivers (signals f)) /\
+    NoDup (receivers f) /\
+    (forall x, In x (receivers f) <-> exists s, In s (signals f) /\ In x (sreceivers s)).
+Proof.
+  intros ops1 ops2 m H m'. assert (H' : wf m') by (apply run_ops_cls_wf; exact H).
+  split; [exact H'|]. split; [apply run_ops_cls_wf; exact H|].
+  intros f Hf. destruct H' as [Hup _]. unfold receivers_uptodate in Hup. rewrite Forall_forall in Hup.
+  pose proof (Hup f Hf) as Hu. split; [exact Hu|]. apply uptodate_union. exact Hu.
+Qed.
